@@ -232,18 +232,21 @@ static void laws(unsigned long long& unit)
 			}
 	}
 	// rejection sampling: first trial on an m x m grid, second trial forced to accept
+	// (two envelopes: a loose one, and one 0.4 % below the maximum of the density, which the sampler tolerates up to 1 %:
+	//  candidates under the part of the density that sticks out are accepted like any other)
 	if(mc::mine(unit++))
+		for(double yMax : {1.25, 1.195})
 		for(int i = 0; i < 48; i++)
 			for(int j = 0; j < 48; j++)
 			{
 				ld ux = (i + 0.5L) / 48, uy = (j + 0.5L) / 48, ux2 = 0.4321L;
 				std::mt19937 g = mc::scripted_uniforms({ux, uy, ux2, 0.0L});
-				double yMax = 1.25, x = Rejection_Sampling(pdf1, 0, 2, yMax, g);
+				double x = Rejection_Sampling(pdf1, 0, 2, yMax, g);
 				g_cases++;
 				double x1 = mc::canonical_of(ux) * 2 + 0, y1 = mc::canonical_of(uy) * yMax + 0, x2 = mc::canonical_of(ux2) * 2;
 				double want = y1 <= pdf1(x1) ? x1 : x2;
 				int used	= y1 <= pdf1(x1) ? 4 : 8;
-				std::string key = "Rejection_Sampling,ux=" + mc::dec((double)ux) + ",uy=" + mc::dec((double)uy);
+				std::string key = "Rejection_Sampling,yMax=" + mc::dec(yMax) + ",ux=" + mc::dec((double)ux) + ",uy=" + mc::dec((double)uy);
 				if(!mc::same_bits(x, want)) fail("laws", key, "acceptance_rule_wrong", "returned " + mc::dec(x) + " expected " + mc::dec(want) + (y1 <= pdf1(x1) ? " (first pair lies under the density)" : " (first pair lies above the density)"));
 				if(mc::position_of(g) != used) fail("laws", key, "wrong_consumption", std::to_string(mc::position_of(g)) + " words consumed, expected " + std::to_string(used));
 			}
@@ -253,14 +256,17 @@ static void laws(unsigned long long& unit)
 				for(int k = 0; k < 24; k++)
 				{
 					ld ux = (i + 0.5L) / 12, uy = (j + 0.5L) / 12, uz = (k + 0.5L) / 24;
+					for(double zMax : {1.15, 1.096})
+					{
 					std::mt19937 g = mc::scripted_uniforms({ux, uy, uz, 0.77L, 0.21L, 0.0L});
 					std::function<double(double, double)> f = pdf2;
-					auto p = Rejection_Sampling_2D(g, f, -1, 1, -1, 1, 1.15);
+					auto p = Rejection_Sampling_2D(g, f, -1, 1, -1, 1, zMax);
 					g_cases++;
-					double x1 = mc::canonical_of(ux) * 2 - 1, y1 = mc::canonical_of(uy) * 2 - 1, z1 = mc::canonical_of(uz) * 1.15, x2 = mc::canonical_of(0.77L) * 2 - 1, y2 = mc::canonical_of(0.21L) * 2 - 1;
+					double x1 = mc::canonical_of(ux) * 2 - 1, y1 = mc::canonical_of(uy) * 2 - 1, z1 = mc::canonical_of(uz) * zMax, x2 = mc::canonical_of(0.77L) * 2 - 1, y2 = mc::canonical_of(0.21L) * 2 - 1;
 					bool acc = z1 <= pdf2(x1, y1);
 					std::string key = "Rejection_Sampling_2D,u=" + mc::dec((double)ux) + "," + mc::dec((double)uy) + "," + mc::dec((double)uz);
-					if(!mc::same_bits(p.first, acc ? x1 : x2) || !mc::same_bits(p.second, acc ? y1 : y2)) fail("laws", key, "acceptance_rule_wrong", "returned (" + mc::dec(p.first) + "," + mc::dec(p.second) + ")");
+					if(!mc::same_bits(p.first, acc ? x1 : x2) || !mc::same_bits(p.second, acc ? y1 : y2)) fail("laws", key + ",zMax=" + mc::dec(zMax), "acceptance_rule_wrong", "returned (" + mc::dec(p.first) + "," + mc::dec(p.second) + ")");
+					}
 				}
 	// Poisson: Knuth's product rule, all uniform sequences over a 12-grid up to length 6
 	// (for small means the decisive uniforms lie within `mean` of 0 and 1: three letters relative to the mean join the grid,
